@@ -147,7 +147,7 @@ func init() {
 		// --- Rotate, gcd
 		if fn := x.Func(f, "", "Rotate"); fn != nil {
 			V := map[string]string{"len(ss)": "n", "k": "k", "i": "i", "j": "j", "next": "next"}
-			b := fn.Body.List
+			b := mergeElseIf(fn.Body.List) // `if !ok { panic }; if … { return }` reads as `if !ok { panic } else if …`
 			if x.wantStmts("Rotate", b, "k, ok := sliceCheck(k, len(ss))", "*", "*", "*") {
 				g := b[1].(*ast.IfStmt)
 				if x.Src(g.Cond) != "!ok" || !x.wantStmts("Rotate (panic)", g.Body.List, `panic("offset out of range")`) {
@@ -208,7 +208,7 @@ func init() {
 		// --- Chunks
 		if fn := x.Func(f, "", "Chunks"); fn != nil {
 			V := map[string]string{"len(vs)": "len", "n": "n", "i": "i"}
-			b := fn.Body.List
+			b := mergeElseIf(fn.Body.List)
 			if x.wantStmts("Chunks", b, "*", "*", "i := 0", "*", "return out") {
 				g := b[0].(*ast.IfStmt)
 				fs.set("chunksPanics", x.CondExpr(g.Cond, V, true), "`Chunks`: `if "+x.Src(g.Cond)+" { panic }`")
@@ -380,7 +380,7 @@ func init() {
 			}
 			b := fn.Body.List
 			if !x.wantStmts(p.fn, b, "if len(vs) == 0 { return vs }", "*", "prev[0] = -1", "tails[0] = 0", "*",
-				"ret := make([]T, len(tails))", "seqIdx := tails[len(tails)-1]", "for i := range ret { ret[len(ret)-1-i] = vs[seqIdx] seqIdx = prev[seqIdx] }", "return ret") {
+				"ret := make([]T, len(tails))", "seqIdx := tails[len(tails)-1]", "for i := range ret { ret[len(ret)-1-i] = vs[seqIdx] seqIdx = prev[seqIdx] } ||| for i := len(ret) - 1; i >= 0; i-- { ret[i] = vs[seqIdx] seqIdx = prev[seqIdx] }", "return ret") {
 				continue
 			}
 			loop, ok := b[4].(*ast.RangeStmt)
@@ -395,6 +395,9 @@ func init() {
 			fast := lb[2].(*ast.IfStmt)
 			x.wantStmts(p.fn+" (fast path)", fast.Body.List, "prev[i] = idxOfBestTail", "tails = append(tails, i)", "continue")
 			fc, ok := fast.Cond.(*ast.BinaryExpr)
+			if ok {
+				fc = callOnLeft(fc)
+			}
 			if !ok || x.Src(fc.X) != "cmp(vs[i], vs[idxOfBestTail])" {
 				x.fail("%s: fast-path test does not compare cmp(vs[i], vs[idxOfBestTail])", p.fn)
 			} else {
@@ -421,25 +424,32 @@ func init() {
 				}
 			}
 			first := lb[4].(*ast.IfStmt)
-			fs.set(p.pfx+"First", x.CondExpr(first.Cond, map[string]string{"replaceIdx": "r"}, true), "`"+p.fn+"`: `if "+x.Src(first.Cond)+" { prev[i] = -1 }`")
-			x.wantStmts(p.fn+" (first)", first.Body.List, "prev[i] = -1")
-			if els, ok := first.Else.(*ast.BlockStmt); !ok || !x.wantStmts(p.fn+" (else)", els.List, "prev[i] = tails[replaceIdx-1]") {
+			c1, isFirst, notFirst, ok := orientIf(first, func(l []ast.Stmt) bool { return len(l) == 1 && x.Src(l[0]) == "prev[i] = -1" })
+			fs.set(p.pfx+"First", x.CondExpr(c1, map[string]string{"replaceIdx": "r"}, true), "`"+p.fn+"`: `if "+x.Src(c1)+" { prev[i] = -1 }`")
+			x.wantStmts(p.fn+" (first)", isFirst, "prev[i] = -1")
+			if !ok || !x.wantStmts(p.fn+" (else)", notFirst, "prev[i] = tails[replaceIdx-1]") {
 				x.fail("%s: else branch is not `prev[i] = tails[replaceIdx-1]`", p.fn)
 			}
 		}
 		if fn := x.Func(fl, "", "bisectRight"); fn != nil {
 			b := fn.Body.List
-			if x.wantStmts("bisectRight", b, "ln := len(vs)", "low, high := uint(0), uint(ln)", "*", "ret := int(low)", "return ret") {
-				loop, ok := b[2].(*ast.ForStmt)
+			x.inlineLocals(fn, "ln", "ret") // single-use temporaries: `ln := len(vs)`, `ret := int(low)`
+			b = fn.Body.List
+			if x.wantStmts("bisectRight", b, "low, high := uint(0), uint(len(vs))", "*", "return int(low)") {
+				loop, ok := b[1].(*ast.ForStmt)
 				if !ok || x.Src(loop.Cond) != "low < high" || loop.Init != nil || loop.Post != nil {
 					x.fail("bisectRight: loop is not `for low < high`")
 				} else if x.wantStmts("bisectRight (loop)", loop.Body.List, "mid := (low + high) / 2", "*") {
 					t := loop.Body.List[1].(*ast.IfStmt)
-					els, _ := t.Else.(*ast.BlockStmt)
-					if els == nil || !x.wantStmts("bisectRight (then)", t.Body.List, "high = mid") || !x.wantStmts("bisectRight (else)", els.List, "low = mid + 1") {
+					// roles by content: the branch `high = mid` is "go left", whichever comes first
+					c, left, right, ok := orientIf(t, func(l []ast.Stmt) bool { return len(l) == 1 && x.Src(l[0]) == "high = mid" })
+					if !ok || !x.wantStmts("bisectRight (go left)", left, "high = mid") || !x.wantStmts("bisectRight (go right)", right, "low = mid + 1") {
 						x.fail("bisectRight: branches are not `high = mid` / `low = mid + 1`")
 					}
-					tc, ok := t.Cond.(*ast.BinaryExpr)
+					tc, ok := c.(*ast.BinaryExpr)
+					if ok {
+						tc = callOnLeft(tc)
+					}
 					if !ok || x.Src(tc.X) != "cmp(vs[mid], target)" {
 						x.fail("bisectRight: test does not compare cmp(vs[mid], target)")
 					} else {
@@ -468,4 +478,14 @@ func appendArg(x *X, st ast.Stmt) (ast.Expr, bool) {
 	}
 	x.fail("statement %q is not `out = append(out, …)`", x.Src(st))
 	return nil, false
+}
+
+// callOnLeft mirrors `lit OP call(…)` into `call(…) OP' lit` (`0 < cmp(a, b)` reads `cmp(a, b) > 0`).
+func callOnLeft(b *ast.BinaryExpr) *ast.BinaryExpr {
+	_, lcall := b.X.(*ast.CallExpr)
+	_, rcall := b.Y.(*ast.CallExpr)
+	if !lcall && rcall {
+		return &ast.BinaryExpr{X: b.Y, OpPos: b.OpPos, Op: flip(b.Op), Y: b.X}
+	}
+	return b
 }
